@@ -103,16 +103,23 @@ def run(ctx):
 
     def values_job():
         dd = subdir("values", vfiles)
-        consts = {"Objs": "<- ModelObjs", "TextOf": "<- ModelText", "MaxOps": 5 if q else 6}
-        write_cfg(dd / "ValMC_run.cfg", "Spec", dict(consts, Impl='"fresh"'), invariants=["ValuesNotViews", "RoundTripsToOwn"])
+        consts = {"Objs": "<- ModelObjs", "TextOf": "<- ModelText", "MaxOps": 5 if q else 6, "DecImpl": '"copy"',
+                  "Sides": '{"out", "in"}'}
+        write_cfg(dd / "ValMC_run.cfg", "Spec", dict(consts, Impl='"fresh"'),
+                  invariants=["ValuesNotViews", "RoundTripsToOwn", "DecodedIndependent"])
         tlc_locked(ctx, dd, "MarshalValues", "ValMC_run.cfg", workers=2, label="values-mc")
         write_cfg(dd / "ValPooled_run.cfg", "Spec", dict(consts, Impl='"pooled"'), invariants=["ValuesNotViews"])
         r = ctx.tlc(dd, "MarshalValues", "ValPooled_run.cfg", workers=2, expect_ok=False, count=False,
                     label="values-pooled-must-fail")
         if r.violated != "ValuesNotViews":
             raise CheckerError("MarshalValues.tla does not refute the pooled-buffer encoder:\n" + "\n".join(r.out.splitlines()[-20:]))
+        write_cfg(dd / "ValZero_run.cfg", "Spec", dict(consts, Impl='"fresh"', DecImpl='"zerocopy"'), invariants=["DecodedIndependent"])
+        r = ctx.tlc(dd, "MarshalValues", "ValZero_run.cfg", workers=2, expect_ok=False, count=False,
+                    label="values-zerocopy-decoder-must-fail")
+        if r.violated != "DecodedIndependent":
+            raise CheckerError("MarshalValues.tla does not refute the zero-copy decoder:\n" + "\n".join(r.out.splitlines()[-20:]))
         write_cfg(dd / "ValGen_run.cfg", "GSpec", dict(consts, Impl='"fresh"', MaxOps=4 if q else 5),
-                  invariants=["Emit", "ValuesNotViews", "RoundTripsToOwn"])
+                  invariants=["Emit", "ValuesNotViews", "RoundTripsToOwn", "DecodedIndependent"])
         tlc_locked(ctx, dd, "MarshalValuesGen", "ValGen_run.cfg", workers=2, label="values-gen")
         exhaustive.append(count_lines(dd / "values_vectors.ndjson"))
         vh_collect(["c14", "replay-values", dd / "values_vectors.ndjson"], "values")
